@@ -182,3 +182,12 @@ Proof.
   - destruct ok; cbn [negb]; [|discriminate]. destruct fl; [|discriminate]. intros _. split; [apply H2; reflexivity|reflexivity].
   - intros Hn. destruct (H3 Hn) as [-> _]. cbn [negb]. split; [apply H2; reflexivity|reflexivity].
 Qed.
+
+(* the sender as a whole, in the model: fragmentation, frame encoding, emission loop *)
+Definition usart_send_packets (ps: list packet) (ans: list wtok) : out (list N * list wtok) lerr :=
+  match mapM (fun p => match to_frames p with
+                       | Val fs => (match mapM to_usart fs with Val es => Val es | Fail _ => Panic | Panic => Panic | Hang => Hang end : out (list (list N)) lerr)
+                       | Fail _ => Panic | Panic => Panic | Hang => Hang end) ps with
+  | Val encss => usart_send (concat encss) ans
+  | Fail e => Fail e | Panic => Panic | Hang => Hang
+  end.
